@@ -37,6 +37,7 @@ class HandleRpcMethod:
     types = {'self': 'pjrpc.server.dispatcher:BaseDispatcher', 'method_name': 'str', 'params': 'opt:list|dict',
              'context': 'any'}
     raises_only = ('pjrpc.common.exceptions:JsonRpcError',)
+    clause_props = {'modifies': ['C13']}      # C13: nothing pre-existing is written, nothing is retained
     modifies = ('$trace',)
     cross_check = False     # inputs include abstract user callables: no native cross-check yet
     result_type = 'encodable'
@@ -55,6 +56,7 @@ class HandleRpcRequest:
     types = {'self': 'pjrpc.server.dispatcher:BaseDispatcher', 'request': '=pjrpc.common.v20:Request',
              'context': 'any'}
     raises_only = ('pjrpc.common.exceptions:JsonRpcError',)
+    clause_props = {'modifies': ['C13']}      # C13: nothing pre-existing is written, nothing is retained
     modifies = ('$trace',)
     cross_check = False     # inputs include abstract user callables: no native cross-check yet
 
@@ -84,6 +86,7 @@ class HandleRequest:
     types = {'self': 'pjrpc.server.dispatcher:BaseDispatcher', 'request': '=pjrpc.common.v20:Request',
              'context': 'any'}
     raises_only = ()            # C01: never raises (A-user: error handlers do not raise)
+    clause_props = {'modifies': ['C13']}      # C13: nothing pre-existing is written, nothing is retained
     modifies = ('$trace',)
     cross_check = False     # inputs include abstract user callables: no native cross-check yet
     loop0 = {'ghosts': ['trace'], 'index': 'k'}
@@ -162,7 +165,7 @@ def dispatcher_ok(d):
 @contract('pjrpc.server.dispatcher:Dispatcher.dispatch', also=('pjrpc.server.dispatcher:AsyncDispatcher.dispatch',),
           props=['C01', 'C02', 'C03'])
 class Dispatch:
-    clause_props = {'ensures_sequential_mode': ['C10']}
+    clause_props = {'ensures_sequential_mode': ['C10'], 'modifies': ['C13']}
     types = {'self': 'pjrpc.server.dispatcher:BaseDispatcher', 'request_text': 'str', 'context': 'any'}
     raises_only = ()            # C01: the dispatcher never raises
     modifies = ('$trace',)
